@@ -244,6 +244,11 @@ pub struct Recorder {
     pub last_abort: String,
     /// durable part of the last projection
     pub last_db: Value,
+    /// while a tower thread may be blocked inside the code under test the snapshot hooks (which take the same locks) are
+    /// not used: the last memory snapshot is reported, with the reachability flag read directly
+    pub frozen: bool,
+    /// attribute the node RPCs of this thread to the next event (a joined asynchronous call)
+    pub rpc_thread: Option<std::thread::ThreadId>,
 }
 
 pub type Rec = Arc<Mutex<Recorder>>;
@@ -370,6 +375,15 @@ impl Recorder {
             Some(c) => c,
             None => return self.last_mem.clone(),
         };
+        if self.frozen {
+            let mut v = self.last_mem.clone();
+            // the flag mutex is only ever held for an instant (waiters release it inside the condition variable)
+            if let Ok(g) = comps.reachable.0.lock() {
+                v["reachable"] = json!(*g);
+            }
+            self.last_mem = v.clone();
+            return v;
+        }
         let sym = &self.sym;
         let scale = self.scale;
         let r = catch_unwind(AssertUnwindSafe(|| {
@@ -433,13 +447,17 @@ impl Recorder {
         }
     }
 
-    pub fn rpc_delta(&mut self) -> Vec<Value> {
-        let node = self.node.lock().unwrap();
-        let out: Vec<Value> = node.rpc_log[self.rpc_mark..]
-            .iter()
-            .map(|e| json!([e.method, self.sym.sym_of_txid(&e.txid), e.verdict]))
-            .collect();
-        self.rpc_mark = node.rpc_log.len();
+    /// The node RPCs made by thread `tid` (default: the calling thread) that were not yet attributed to an event.
+    pub fn rpc_delta(&mut self, tid: Option<std::thread::ThreadId>) -> Vec<Value> {
+        let tid = tid.unwrap_or_else(|| std::thread::current().id());
+        let mut node = self.node.lock().unwrap();
+        let mut out = Vec::new();
+        for e in node.rpc_log.iter_mut() {
+            if !e.taken && e.tid == tid {
+                e.taken = true;
+                out.push(json!([e.method, self.sym.sym_of_txid(&e.txid), e.verdict]));
+            }
+        }
         out
     }
 
@@ -455,8 +473,10 @@ impl Recorder {
         for (k, v) in mem.as_object().unwrap() {
             post[k] = v.clone();
         }
-        fields["rpc"] = Value::Array(self.rpc_delta());
+        let tid = self.rpc_thread.take();
+        fields["rpc"] = Value::Array(self.rpc_delta(tid));
         fields["abort"] = json!(abort);
+        fields["frozen"] = json!(self.frozen);
         fields["post"] = post;
         self.tw.emit(&fields);
     }
@@ -538,12 +558,19 @@ pub struct Tower {
     pub responder: Arc<Responder>,
     pub watcher: Arc<Watcher>,
     pub api: Arc<InternalAPI>,
-    pub monitor: Monitor,
+    pub monitor: Option<Monitor>,
     pub reachable: Arc<(Mutex<bool>, Condvar)>,
     pub tower_pk: PublicKey,
 }
 
+pub struct AsyncCall {
+    pub rx: std::sync::mpsc::Receiver<(Value, Option<Monitor>, std::thread::ThreadId)>,
+    pub fields: Value,
+    pub kind: &'static str,
+}
+
 pub struct Rig {
+    pub calls: HashMap<String, AsyncCall>,
     pub rec: Rec,
     pub node: Node,
     pub cfg: Cfg,
@@ -602,8 +629,11 @@ impl Rig {
             scale: cfg.scale as i64,
             last_abort: String::new(),
             last_db: json!({}),
+            frozen: false,
+            rpc_thread: None,
         }));
         Rig {
+            calls: HashMap::new(),
             rec,
             node,
             cfg,
@@ -624,8 +654,7 @@ impl Rig {
         rec.node = node;
         rec.db_path = db_path;
         rec.rdb = None;
-        rec.rpc_mark = 0;
-        rec.sym = Sym::new();
+                rec.sym = Sym::new();
         rec.spv_tip = None;
         rec.uuid_map = HashMap::new();
         rec.scale = cfg.scale as i64;
@@ -699,7 +728,7 @@ impl Rig {
                     shutdown_trigger,
                 ));
                 (
-                    Tower { dbm, gatekeeper, responder, watcher, api, monitor, reachable, tower_pk },
+                    Tower { dbm, gatekeeper, responder, watcher, api, monitor: Some(monitor), reachable, tower_pk },
                     tip,
                     last_n_blocks,
                 )
@@ -971,7 +1000,7 @@ impl Rig {
         let spv_h = spv_before.and_then(|h| self.node.lock().unwrap().known.get(&h).map(|(_, x)| *x)).unwrap_or(0);
         let mut tower = self.tower.take().expect("tower not booted");
         let r = catch_unwind(AssertUnwindSafe(|| {
-            self.rt.block_on(tower.monitor.poll_best_tip());
+            self.rt.block_on(tower.monitor.as_mut().expect("chain monitor is busy on another thread").poll_best_tip());
         }));
         self.tower = Some(tower);
         let reported = std::mem::replace(&mut self.rec.lock().unwrap().abort_reported, false);
@@ -1016,5 +1045,170 @@ impl Rig {
         }
         self.rec.lock().unwrap().emit_plain(json!({"act": "Probe", "alive": alive}));
         alive
+    }
+}
+
+
+// ---------------------------------------------------------------------------------------------------
+// requests and polls on their own threads (C12: outages; the caller may block inside the code under test)
+
+impl Rig {
+    /// add_appointment on its own thread. The Add event is emitted when the call is joined.
+    pub fn spawn_add(&mut self, name: &str, u: i64, l: i64, blob_spec: &Value, tsd: u32) {
+        let api = self.api();
+        let (blob, key, pay) = self.make_blob(blob_spec);
+        let ltx = self.rec.lock().unwrap().sym.tx(l);
+        let locator = Locator::new(ltx.compute_txid());
+        let appointment = teos_common::appointment::Appointment::new(locator, blob.clone(), tsd);
+        let (sig, who) = self.sign_class(u, &appointment.to_vec(), b"", "valid");
+        let ver = self.rec.lock().unwrap().sym.ver_of(&sig);
+        let tower_id = TowerId(self.tower.as_ref().unwrap().tower_pk);
+        let scale = self.cfg.scale;
+        let (tx, rx) = std::sync::mpsc::channel();
+        let size = blob.len();
+        std::thread::spawn(move || {
+            let rt = tokio::runtime::Builder::new_current_thread().enable_all().build().unwrap();
+            let r = catch_unwind(AssertUnwindSafe(|| {
+                rt.block_on(async {
+                    let req = common_msgs::AddAppointmentRequest {
+                        appointment: Some(common_msgs::Appointment { locator: locator.to_vec(), encrypted_blob: blob.clone(), to_self_delay: tsd }),
+                        signature: sig.clone(),
+                    };
+                    match api.add_appointment(Request::new(req)).await {
+                        Ok(resp) => {
+                            let m = resp.into_inner();
+                            let ok = m.locator == locator.to_vec()
+                                && AppointmentReceipt::with_signature(sig.clone(), m.start_block, m.signature.clone()).verify(&tower_id);
+                            json!({"code": "ok", "start": m.start_block, "slots": m.available_slots / scale, "expiry": m.subscription_expiry, "sig_ok": ok, "ver": ver})
+                        }
+                        Err(s) => code_of(&s),
+                    }
+                })
+            }));
+            let v = match r {
+                Ok(v) => v,
+                Err(_) => json!({"code": "abort"}),
+            };
+            let _ = tx.send((v, None, std::thread::current().id()));
+        });
+        self.rec.lock().unwrap().frozen = true;
+        self.rec.lock().unwrap().emit_plain(json!({"act": "Note", "what": "spawn", "thread": name, "op": "add"}));
+        self.calls.insert(
+            name.to_string(),
+            AsyncCall {
+                rx,
+                kind: "add",
+                fields: json!({"act": "Add", "who": who, "u": u, "cls": "valid", "l": l, "key": key, "pay": pay, "size": size, "tsd": tsd, "ver": ver}),
+            },
+        );
+    }
+
+    /// ChainMonitor::poll_best_tip on its own thread (the chain monitor thread of the real daemon).
+    pub fn spawn_poll(&mut self, name: &str) {
+        let (best_ok, node_tip, node_tip_h) = {
+            let node = self.node.lock().unwrap();
+            (node.up && node.faults.best_fail == 0 && node.faults.header_fail == 0, node.tip().block_hash(), node.height())
+        };
+        let spv_before = self.rec.lock().unwrap().spv_tip;
+        let spv_h = spv_before.and_then(|h| self.node.lock().unwrap().known.get(&h).map(|(_, x)| *x)).unwrap_or(0);
+        let res = if !best_ok {
+            "transient"
+        } else if Some(node_tip) == spv_before {
+            "common"
+        } else if node_tip_h > spv_h {
+            "ok"
+        } else {
+            "worse"
+        };
+        let tip = self.rec.lock().unwrap().sym.block(&node_tip);
+        let mut monitor = self.tower.as_mut().expect("tower not booted").monitor.take().expect("chain monitor busy");
+        let (tx, rx) = std::sync::mpsc::channel();
+        // the observing listeners read memory through the hooks: they run on the polling thread itself, which is fine
+        std::thread::spawn(move || {
+            let rt = tokio::runtime::Builder::new_current_thread().enable_all().build().unwrap();
+            let r = catch_unwind(AssertUnwindSafe(|| {
+                rt.block_on(monitor.poll_best_tip());
+            }));
+            let _ = tx.send((json!({"ok": r.is_ok()}), Some(monitor), std::thread::current().id()));
+        });
+        self.rec.lock().unwrap().frozen = true;
+        self.rec.lock().unwrap().emit_plain(json!({"act": "Note", "what": "spawn", "thread": name, "op": "poll"}));
+        self.calls.insert(
+            name.to_string(),
+            AsyncCall { rx, kind: "poll", fields: json!({"act": "PollEnd", "res": res, "tip": tip, "node_tip": node_tip.to_string()}) },
+        );
+    }
+
+    /// Waits (bounded) until the reachability flag has the wanted value; emits a Flag event when it is observed.
+    pub fn wait_flag(&mut self, want: bool, timeout_ms: u64) -> bool {
+        let reachable = self.tower.as_ref().unwrap().reachable.clone();
+        let t0 = std::time::Instant::now();
+        loop {
+            let v = *reachable.0.lock().unwrap();
+            if v == want {
+                self.rec.lock().unwrap().emit_plain(json!({"act": "Flag", "reachable": want}));
+                return true;
+            }
+            if t0.elapsed().as_millis() as u64 > timeout_ms {
+                return false;
+            }
+            std::thread::sleep(std::time::Duration::from_millis(2));
+        }
+    }
+
+    /// Joins a spawned call. Returns false when it is still blocked after `timeout_ms` (a Hung event is emitted).
+    pub fn join(&mut self, name: &str, timeout_ms: u64) -> bool {
+        let call = match self.calls.remove(name) {
+            Some(c) => c,
+            None => return true,
+        };
+        match call.rx.recv_timeout(std::time::Duration::from_millis(timeout_ms)) {
+            Ok((v, monitor, tid)) => {
+                if self.calls.is_empty() {
+                    self.rec.lock().unwrap().frozen = false;
+                }
+                if call.kind == "poll" {
+                    if let (Some(t), Some(m)) = (self.tower.as_mut(), monitor) {
+                        t.monitor = Some(m);
+                    }
+                    let ok = v["ok"].as_bool().unwrap_or(false);
+                    let mut rec = self.rec.lock().unwrap();
+                    let reported = std::mem::replace(&mut rec.abort_reported, false);
+                    let abort = if !ok && !reported { take_abort_class().0 } else { String::new() };
+                    let node_tip: BlockHash = call.fields["node_tip"].as_str().unwrap().parse().unwrap();
+                    let synced = rec.spv_tip == Some(node_tip);
+                    let mut f = call.fields.clone();
+                    f["synced"] = json!(synced);
+                    f["propagated"] = json!(!ok && reported);
+                    f.as_object_mut().unwrap().remove("node_tip");
+                    rec.emit(f, &abort);
+                } else {
+                    let mut f = call.fields.clone();
+                    let abort = if v["code"] == "abort" { take_abort_class().0 } else { String::new() };
+                    f["reply"] = v;
+                    let mut rec = self.rec.lock().unwrap();
+                    rec.rpc_thread = Some(tid);
+                    rec.emit(f, &abort);
+                }
+                true
+            }
+            Err(_) => {
+                // still blocked: the thread (and whatever it holds) is abandoned
+                self.rec.lock().unwrap().emit_plain(json!({"act": "Hung", "thread": name, "op": call.kind}));
+                false
+            }
+        }
+    }
+
+    /// Forget a tower some of whose threads are blocked forever (they keep their references alive).
+    pub fn abandon(&mut self) {
+        if let Some(t) = self.tower.take() {
+            std::mem::forget(t);
+        }
+        self.calls.clear();
+        let mut rec = self.rec.lock().unwrap();
+        rec.comps = None;
+        rec.frozen = false;
+        rec.emit_plain(json!({"act": "Crash"}));
     }
 }
